@@ -20,10 +20,28 @@ fn mk(spans: &[(usize, usize)]) -> Vec<Lint> {
 
 /// Runs one case on the implementation, records the correspondence line and evaluates the oracle.
 pub fn check_spans(rep: &mut Report, spans: &[(usize, usize)], origin: &str, wellformed: bool) {
+    check_lints(rep, spans, None, origin, wellformed)
+}
+
+/// `labels` = None: every lint carries its position as message (all lints distinct; R line, kept ids).
+/// `labels` = Some: the message is the label, so lints with equal span and label are EXACTLY equal (equal in every
+/// field) — D line, kept (start, end, label) triples; ids for the oracle = first unused equal input lint.
+pub fn check_lints(rep: &mut Report, spans: &[(usize, usize)], labels: Option<&[usize]>, origin: &str, wellformed: bool) {
     rep.eval();
-    let input = mk(spans);
-    let case_line = format!("R {}", spans.iter().map(|(s, e)| format!("{s} {e}")).collect::<Vec<_>>().join(" "));
-    let inp_json = json!({"kind": "spans", "spans": spans.iter().map(|(s,e)| vec![*s,*e]).collect::<Vec<_>>(), "origin": origin});
+    let input: Vec<Lint> = match labels {
+        None => mk(spans),
+        Some(ls) => spans.iter().zip(ls).map(|((s, e), l)| Lint { span: Span { start: *s, end: *e }, message: format!("L{l}"), ..Default::default() }).collect(),
+    };
+    let (case_line, inp_json) = match labels {
+        None => (
+            format!("R {}", spans.iter().map(|(s, e)| format!("{s} {e}")).collect::<Vec<_>>().join(" ")),
+            json!({"kind": "spans", "spans": spans.iter().map(|(s,e)| vec![*s,*e]).collect::<Vec<_>>(), "origin": origin}),
+        ),
+        Some(ls) => (
+            format!("D {}", spans.iter().zip(ls).map(|((s, e), l)| format!("{s} {e} {l}")).collect::<Vec<_>>().join(" ")).trim_end().to_string(),
+            json!({"kind": "dup", "spans": spans.iter().map(|(s,e)| vec![*s,*e]).collect::<Vec<_>>(), "labels": ls, "origin": origin}),
+        ),
+    };
     let out = guarded(|| {
         let mut v = input.clone();
         remove_overlaps(&mut v);
@@ -37,8 +55,25 @@ pub fn check_spans(rep: &mut Report, spans: &[(usize, usize)], origin: &str, wel
             return;
         }
     };
-    let ids: Vec<usize> = out.iter().map(|l| l.message.parse::<usize>().unwrap_or(usize::MAX)).collect();
-    rep.case(&case_line, ids.iter().map(|i| i.to_string()).collect::<Vec<_>>().join(" ").trim());
+    let ids: Vec<usize> = match labels {
+        None => out.iter().map(|l| l.message.parse::<usize>().unwrap_or(usize::MAX)).collect(),
+        Some(_) => {
+            let mut taken = vec![false; input.len()];
+            out.iter()
+                .map(|l| match (0..input.len()).find(|i| !taken[*i] && input[*i] == *l) {
+                    Some(i) => {
+                        taken[i] = true;
+                        i
+                    }
+                    None => usize::MAX,
+                })
+                .collect()
+        }
+    };
+    match labels {
+        None => rep.case(&case_line, ids.iter().map(|i| i.to_string()).collect::<Vec<_>>().join(" ").trim()),
+        Some(_) => rep.case(&case_line, out.iter().map(|l| format!("{} {} {}", l.span.start, l.span.end, l.message.trim_start_matches('L'))).collect::<Vec<_>>().join(" ").trim()),
+    }
     if !wellformed {
         rep.count("malformed_stream");
         return; // outside the property's domain: must not panic, must agree with the model, nothing else
@@ -121,6 +156,22 @@ pub fn check_spans(rep: &mut Report, spans: &[(usize, usize)], origin: &str, wel
     rep.count(&format!("dropped:{}", bucket(dropped)));
     if spans.iter().any(|(s, e)| s == e) {
         rep.count("has_zero_width");
+    }
+    if let Some(ls) = labels {
+        let mut m = 1usize;
+        let mut zw_dup = false;
+        for i in 0..spans.len() {
+            let c = (0..spans.len()).filter(|j| spans[*j] == spans[i] && ls[*j] == ls[i]).count();
+            m = m.max(c);
+            zw_dup |= c > 1 && spans[i].0 == spans[i].1;
+        }
+        rep.count(&format!("dup:max_multiplicity:{}", m.min(4)));
+        if zw_dup {
+            rep.count("dup:zero_width_repeated");
+        }
+        if m > 1 && dropped > m - 1 {
+            rep.count("dup:repeat_plus_other_drops");
+        }
     }
     if rep.samples.len() < 6 && dropped > 0 {
         rep.sample(json!({"spans": spans.iter().map(|(s,e)| vec![*s,*e]).collect::<Vec<_>>(), "kept_ids": ids, "origin": origin}));
@@ -835,6 +886,29 @@ fn cli_text(r: &mut Rng) -> String {
     t
 }
 
+fn random_dups(r: &mut Rng) -> (Vec<(usize, usize)>, Vec<usize>) {
+    let n = 1 + r.below(10);
+    let range = *r.pick(&[4usize, 8, 12, 30]);
+    let nl = 1 + r.below(2);
+    let mut v: Vec<((usize, usize), usize)> = (0..n)
+        .map(|_| {
+            let a = r.below(range + 1);
+            let b = r.below(range + 1);
+            let sp = if r.chance(1, 8) { (a.min(b), a.min(b)) } else { (a.min(b), a.max(b)) };
+            (sp, r.below(nl))
+        })
+        .collect();
+    // repeat 1-3 of them once or twice, anywhere in the list
+    for _ in 0..(1 + r.below(3)) {
+        let x = v[r.below(v.len())];
+        for _ in 0..(1 + r.below(2)) {
+            let at = r.below(v.len() + 1);
+            v.insert(at, x);
+        }
+    }
+    (v.iter().map(|x| x.0).collect(), v.iter().map(|x| x.1).collect())
+}
+
 fn random_subs(r: &mut Rng) -> Vec<Vec<(usize, usize)>> {
     let k = 2 + r.below(2);
     let range = *r.pick(&[4usize, 8, 12, 30]);
@@ -861,6 +935,13 @@ pub fn replay_any(rep: &mut Report, cxw: &mut Option<WasmCtx>, cxc: &mut Option<
             if let (Some(cx), Some(text)) = (cxc.as_mut(), v["text"].as_str()) {
                 check_cli_batch(rep, cx, &[(text.to_string(), v["count"].as_bool().unwrap_or(false))], "replay");
             }
+        }
+        "dup" => {
+            let spans: Vec<(usize, usize)> = v["spans"].as_array().map(|a| a.iter().map(|p| (p[0].as_u64().unwrap_or(0) as usize, p[1].as_u64().unwrap_or(0) as usize)).collect()).unwrap_or_default();
+            let mut ls: Vec<usize> = v["labels"].as_array().map(|a| a.iter().map(|x| x.as_u64().unwrap_or(0) as usize).collect()).unwrap_or_default();
+            ls.resize(spans.len(), 0);
+            let wf = spans.iter().all(|(s, e)| s <= e);
+            check_lints(rep, &spans, Some(&ls), "replay", wf);
         }
         "mergemacro" => {
             let subs: Vec<Vec<(usize, usize)>> = v["subs"]
@@ -893,7 +974,7 @@ pub fn replay_input(rep: &mut Report, v: &Value) {
 
 pub fn run(a: &Args, corpus: &[Value]) {
     let mut rep = Report::new(&a.out);
-    rep.rule = "span lists: corpus, random multisets (0-40 spans, coordinate range 4..200, zero-width forced 1/12), span lists of all lints of generated documents (all rules on), malformed stream (start>end; correspondence+no-panic only); thorough adds every sequence of <=5 spans over coordinates 0..4. phase 3: texts through the real harper_wasm::Linter (lint, ignore 0-3 reported lints, lint again, fix all through apply_suggestion last first; W/F lines against the caller model fed with the raw LintGroup lints), money texts through CurrencyPlacement (C lines: candidate generation + overlap removal), trigger sentences through the four merge_linters! linters (output must be a fixpoint of the model). phase 4: the real merge_linters! body expanded in the harness over 2 and 3 test sub-linters with planned outputs (M lines: kept ids); trigger texts written to files and linted by the harper-cli BINARY (main.rs built unmodified; `lint` and `lint --count`), its stdout parsed back (count / 'No lints found' / coloured characters + label anchors and messages of the ariadne report; L lines). non-trivial = distinct well-formed list with >=2 spans of which >=1 is dropped".into();
+    rep.rule = "span lists: corpus, random multisets (0-40 spans, coordinate range 4..200, zero-width forced 1/12), span lists of all lints of generated documents (all rules on), malformed stream (start>end; correspondence+no-panic only); thorough adds every sequence of <=5 spans over coordinates 0..4. phase 3: texts through the real harper_wasm::Linter (lint, ignore 0-3 reported lints, lint again, fix all through apply_suggestion last first; W/F lines against the caller model fed with the raw LintGroup lints), money texts through CurrencyPlacement (C lines: candidate generation + overlap removal), trigger sentences through the four merge_linters! linters (output must be a fixpoint of the model). exact-duplicate stream (D lines): lints equal in every field repeated 2-3 times, zero-width ones included, mixed with overlapping lints; thorough adds every sequence of <=4 lints over the spans of coordinates 0..3 x 2 labels. phase 4: the real merge_linters! body expanded in the harness over 2 and 3 test sub-linters with planned outputs (M lines: kept ids); trigger texts written to files and linted by the harper-cli BINARY (main.rs built unmodified; `lint` and `lint --count`), its stdout parsed back (count / 'No lints found' / coloured characters + label anchors and messages of the ariadne report; L lines). non-trivial = distinct well-formed list with >=2 spans of which >=1 is dropped".into();
     let dict0 = FstDictionary::curated();
     let mut cxw: Option<WasmCtx> = None;
     let mut cxc: Option<CliCtx> = None;
@@ -908,6 +989,12 @@ pub fn run(a: &Args, corpus: &[Value]) {
     for _ in 0..a.scale(4000, 60000) {
         let s = random_spans(&mut r);
         check_spans(&mut rep, &s, "random", true);
+    }
+    // exact duplicates: lints equal in every field (same span, same message), repeated 2-3 times, zero-width ones
+    // included, mixed with overlapping lints (the repeated-index hazard of VecExt::remove_indices)
+    for _ in 0..a.scale(4000, 40000) {
+        let (s, l) = random_dups(&mut r);
+        check_lints(&mut rep, &s, Some(&l), "dup", true);
     }
     // malformed stream: start > end (only reachable through deserialisation)
     for _ in 0..a.scale(300, 3000) {
@@ -1018,6 +1105,38 @@ pub fn run(a: &Args, corpus: &[Value]) {
             }
         }
         rep.extra.insert("exhaustive_sequences_le5_over_0_4".into(), json!(count));
+        // exhaustive with exact duplicates: every sequence of <= 4 lints over the 10 spans of coordinates 0..3 x labels {0,1}
+        let mut alld = vec![];
+        for s in 0..=3usize {
+            for e in s..=3usize {
+                for l in 0..2usize {
+                    alld.push(((s, e), l));
+                }
+            }
+        }
+        let mut countd = 0u64;
+        for len in 0..=4usize {
+            let mut idx = vec![0usize; len];
+            loop {
+                let spans: Vec<(usize, usize)> = idx.iter().map(|i| alld[*i].0).collect();
+                let labels: Vec<usize> = idx.iter().map(|i| alld[*i].1).collect();
+                check_lints(&mut rep, &spans, Some(&labels), "exhaustive-dup", true);
+                countd += 1;
+                let mut k = 0;
+                while k < len {
+                    idx[k] += 1;
+                    if idx[k] < alld.len() {
+                        break;
+                    }
+                    idx[k] = 0;
+                    k += 1;
+                }
+                if k == len {
+                    break;
+                }
+            }
+        }
+        rep.extra.insert("exhaustive_dup_sequences_le4_over_0_3_x_2_labels".into(), json!(countd));
     }
     rep.finish();
 }
